@@ -952,15 +952,23 @@ impl World {
     /// Start scheduling (called by the main thread after the root actor thread was created)
     /// and wait for the execution to complete.
     pub fn run_to_completion(&self, watchdog: Duration) -> bool {
+        // the watchdog measures the time without progress (no scheduling step), not the length of
+        // the execution: a long execution on a busy machine is not a hang
         let mut st = self.lock();
-        let deadline = std::time::Instant::now() + watchdog;
+        let mut deadline = std::time::Instant::now() + watchdog;
+        let mut seen_steps = st.steps;
         while !st.finished {
             let now = std::time::Instant::now();
+            if st.steps != seen_steps {
+                seen_steps = st.steps;
+                deadline = now + watchdog;
+            }
             if now >= deadline {
                 st.finished = true;
                 return false;
             }
-            let (g, _) = self.done.wait_timeout(st, deadline - now).unwrap_or_else(|e| e.into_inner());
+            let slice = (deadline - now).min(Duration::from_secs(1));
+            let (g, _) = self.done.wait_timeout(st, slice).unwrap_or_else(|e| e.into_inner());
             st = g;
         }
         true
